@@ -549,6 +549,18 @@ impl VisitMut for Rw {
                         self.bump("R1");
                         let w = self.world_expr();
                         c.args.insert(0, w);
+                        // R30: an argument that may terminate the process (R29 result) is evaluated into a temporary first
+                        // (left-to-right evaluation order is kept: the arguments before it are plain paths/references)
+                        let idx = c.args.iter().position(|a| matches!(a, Expr::Match(_)) && a.to_token_stream().to_string().contains("exit ("));
+                        if let Some(i) = idx {
+                            if c.args.iter().take(i).all(|a| matches!(a, Expr::Path(_) | Expr::Reference(_))) {
+                                self.bump("R30");
+                                let arg = c.args[i].clone();
+                                c.args[i] = parse_quote!(__arg);
+                                let call = c.clone();
+                                *e = parse_quote!({ let __arg = #arg; #call });
+                            }
+                        }
                         return;
                     }
                 }
